@@ -280,6 +280,7 @@ loop:
 			return nil, err
 		}
 
+		p.ignoreWhitespace()
 		if p.input == "" {
 			return nil, errors.New("dictionary expected ',' or '}'")
 		}
